@@ -1160,9 +1160,46 @@ def run_selfop(spec, rec):
              ["selfop=" + op, "kind=" + kind])
 
 
+# ---------------------------------------------------------------------------
+# crosstype: one binary operation between two models of DIFFERENT types of one family (every ordered pair of the five
+# boolean or the five spin types), with unequal numbers of terms on the two sides, plain / reflected-by-python
+# dispatch, optionally wrapped in a second operation.  Judged by the same tree evaluator (values, canonical form,
+# operands unchanged, KeyError only where the left-most model operand's type is quadratic and a product has > 2 labels).
+
+@st.composite
+def crosstype_spec(draw):
+    spin = draw(_BOOL)
+    fam = gen.SPIN_KINDS if spin else gen.BOOL_KINDS
+    ka = draw(st.sampled_from(fam))
+    kb = draw(st.sampled_from([k for k in fam if k != ka]))
+    pool = draw(st.sampled_from(INT_POOLS5))                 # Matrix kinds need non-negative ints
+    labels = tuple(pool[:draw(st.integers(2, 5))])
+    small, big = draw(st.sampled_from([(1, 4), (2, 5), (1, 2), (3, 3)]))
+    if draw(_BOOL):
+        small, big = big, small
+
+    def leaf(kind, nterms):
+        m = 2 if gen.is_quad(kind) else 3
+        key = _key_strategy(labels, m, spin, False)
+        terms = draw(st.lists(st.tuples(key, _COEFS["mixed"]).map(list), min_size=nterms, max_size=nterms,
+                              unique_by=lambda t: frozenset(t[0])))
+        if not gen.is_quad(kind) and len(labels) >= 3 and draw(_BOOL):
+            terms = terms + [[tuple(labels[:3]), draw(gen.SMALL_INT_COEFS)]]       # a cubic term on the non-quadratic side
+        return ["L", kind, terms, draw(_BUILD)]
+    op = draw(st.sampled_from(["+", "+", "-", "*"]))
+    a, b = leaf(ka, small), leaf(kb, big)
+    if op == "*":
+        a[2], b[2] = [t for t in a[2] if len(t[0]) <= 1], [t for t in b[2] if len(t[0]) <= 1]
+    tree = ["B", op, False, a, b]
+    if draw(st.integers(0, 3)) == 0:
+        tree = ["B", draw(st.sampled_from(["+", "-"])), False, tree, ["S", draw(SCALARS)]]
+    return {"spin": spin, "labels": list(labels), "profile": "mixed", "tree": tree, "ctype": draw(gen.CTYPE)}
+
+
 def subchecks(tier):
     return [
         Sub("tree", tree_spec(), run_tree, quick=11000, thorough=150000),
+        Sub("crosstype", crosstype_spec(), run_tree, quick=4000, thorough=50000),
         Sub("rewrite", rewrite_spec(), run_rewrite, quick=3600, thorough=40000),
         Sub("values", values_spec(), run_values, quick=5000, thorough=50000),
         Sub("selfop", selfop_spec(), run_selfop, quick=4800, thorough=60000),
